@@ -1991,3 +1991,88 @@ def rule_cl03_signature_codec(ctx, cfg='prod-all'):
     ok = ok and all(got[f][1] == exp[f][1] for f in ('e', 's') if f in got and got[f] is not None)
     yield Ob('RF-N', 'cl03::signature#reader~writer', ok, 'the reader takes e, s and v from the offsets at which the writer puts them', r[0],
              fact={'writer': exp, 'reader': got}, expected='equal offsets')
+
+
+
+def rule_cl03_key_codecs(ctx, cfg='prod-all'):
+    """CL03PublicKey / CL03SecretKey octets: `from_bytes` reads every field from the octets at which `to_bytes` puts it.  Both sides are written in
+    the ciphersuite constants (`ln`, `SECPARAM / 8 + 1`); the widths of the writer's buffers, in the order in which they are appended, and the
+    bounds of the reader's slices are evaluated as functions of those constants (two assignments) and compared field by field."""
+    import rf_senses
+    prog, eng = ctx.prog(cfg), ctx.eng(cfg)
+    n = 0
+    for ty in ('cl03::keys::CL03PublicKey', 'cl03::keys::CL03SecretKey'):
+        w, r = prog.bodies.get(ty + '::to_bytes'), prog.bodies.get(ty + '::from_bytes')
+        if w is None or r is None:
+            raise AnchorMissing(ty + ' codec functions')
+        wfd, rfd = eng.fndep(w.path), eng.fndep(r.path)
+        fields = [f['name'] for v in prog.adts[ty]['variants'] for f in v['fields']]
+        per_env = []
+        for val in rf_senses._envs():
+            # writer: buffers `vec![0u8; width]` in program order (one per field, appended in the order of the fields)
+            widths = [rf_senses._const_eval(wfd, t['args'][1], val) for bi, t in w.calls() if (t.get('callee') or '').endswith('from_elem') and len(t['args']) == 2]
+            appends = sum(1 for bi, t in w.calls() if (t.get('callee') or '').endswith('extend_from_slice'))
+            # reader: the slice each field is decoded from
+            got = {}
+            for bi, st in r.stmts():
+                rv = st.get('rv') or {}
+                if st['k'] == 'assign' and rv.get('k') == 'agg' and rv.get('ak') == 'adt' and str(rv.get('name', '')).endswith(ty.split('::')[-1]):
+                    for fname, o in zip(rv.get('fields') or [], rv.get('ops') or []):
+                        got[fname] = _slice_bounds(r, rfd, o, val)
+            per_env.append((widths, appends, got))
+        ok = True
+        detail = {}
+        for widths, appends, got in per_env:
+            if len(widths) != len(fields) or appends != len(fields) or any(x is None for x in widths):
+                # the writer is not one zero-filled buffer per field, appended in order (it fills one buffer in place, say): this comparison
+                # cannot judge it - undecided, not a violation
+                ok = None
+                detail['writer_not_in_the_known_form'] = {'buffers': widths, 'appends': appends, 'fields': fields}
+                break
+            off = 0
+            for f, wd in zip(fields, widths):
+                exp = (off, off + wd)
+                if got.get(f) is None:
+                    ok = None if ok is not False else ok      # the reader's slice could not be followed
+                    detail[f] = {'reader': 'not followed'}
+                elif got.get(f) != exp:
+                    ok = False
+                    detail[f] = {'writer_puts_it_at': exp, 'reader_takes': got.get(f)}
+                off += wd
+        n += 1
+        yield Ob('RF-N', '%s#reader~writer' % ty, ok, 'every field is read from the octets it was written to (offsets evaluated in the ciphersuite constants)', r.span,
+                 fact=detail or {'fields': fields, 'agree_at': 'two assignments of the constants'}, expected='equal offsets')
+    yield Ob('RF-N', 'cl03::keys#codecs', n == 2, 'key codecs examined', '', fact=n, expected='2', nontrivial=False)
+
+
+def _slice_bounds(b, fd, op, val, depth=0):
+    """(start, end) of the sub-slice `bytes[a..b]` an operand was decoded from (through `from_digits`, borrows, conversions); an inclusive range
+    ends one later"""
+    import rf_senses
+    if op is None or op.get('k') not in ('copy', 'move') or depth > 10:
+        return None
+    ds = [d for d in fd.defs.get(op['pl']['l'], []) if not d[2].get('dst', {}).get('p')]
+    if len(ds) != 1:
+        return None
+    kind, _bi, x = ds[0]
+    if kind == 'assign':
+        rv = x['rv']
+        if rv['k'] in ('use', 'cast'):
+            return _slice_bounds(b, fd, rv['op'], val, depth + 1)
+        if rv['k'] == 'ref':
+            return _slice_bounds(b, fd, {'k': 'copy', 'pl': {'l': rv['pl']['l']}}, val, depth + 1)
+        if rv['k'] == 'agg' and str(rv.get('name', '')).endswith(('ops::Range', 'range::Range')) and len(rv.get('ops') or []) == 2:
+            a, e = (rf_senses._const_eval(fd, o, val) for o in rv['ops'])
+            return (a, e) if a is not None and e is not None else None
+        return None
+    cal = x.get('callee') or ''
+    args = x.get('args') or []
+    if cal.endswith('RangeInclusive::<Idx>::new') and len(args) == 2:
+        a, e = (rf_senses._const_eval(fd, o, val) for o in args)
+        return (a, e + 1) if a is not None and e is not None else None
+    if cal.endswith(('Index::index', 'from_digits', 'From::from', 'Deref::deref', 'Integer::from_digits')) and args:
+        # Index::index(bytes, range): the range is the second operand
+        if cal.endswith('Index::index') and len(args) == 2:
+            return _slice_bounds(b, fd, args[1], val, depth + 1)
+        return _slice_bounds(b, fd, args[0], val, depth + 1)
+    return None
